@@ -34,11 +34,21 @@ pub enum Sys {
     /// `MultiLayerCacheImpl` over [MemoryCache (roomy), DiskCache]; setup puts go to the disk
     /// layer only (`put_to_layer(.., 1)`), so that lookups travel through both layers
     Multi,
+    /// `DynamicContainer` that comes up on a store whose archive lost its tail (a crash): object 0
+    /// is indexed but its bytes are not there, so a read of it takes the truncated-read path
+    /// (`TruncatedRead`, the entry is marked non-resident and stays indexed). The setup `Put {k:0}`
+    /// stands for that stored object. Programs use key 0 only: a write of object 0 puts the same
+    /// bytes where they were (a write of another object would land there instead).
+    ContainerCut,
 }
 
 impl Sys {
+    pub fn is_container(self) -> bool {
+        matches!(self, Sys::Container | Sys::ContainerCut)
+    }
     pub fn name(self) -> &'static str {
         match self {
+            Sys::ContainerCut => "container-truncated",
             Sys::Memory => "memory",
             Sys::Disk => "disk",
             Sys::Container => "container",
@@ -252,6 +262,8 @@ pub enum System {
     Mem(MemoryCache<SKey>),
     Disk(DiskCache<SKey>),
     Cont(DynamicContainer),
+    /// see `Sys::ContainerCut`
+    ContCut(DynamicContainer),
     Multi(cascette_cache::multi_layer::MultiLayerCacheImpl<SKey>),
 }
 
@@ -294,6 +306,44 @@ impl System {
                 rt.block_on(c.open()).map_err(|e| e.to_string())?;
                 Ok(System::Cont(c))
             }
+            Sys::ContainerCut => {
+                let store = dir.join("store");
+                let data_files = |store: &Path| -> Result<Vec<(std::path::PathBuf, u64)>, String> {
+                    let mut v = Vec::new();
+                    for e in std::fs::read_dir(store).map_err(|e| e.to_string())?.flatten() {
+                        let name = e.file_name().to_string_lossy().into_owned();
+                        if name.starts_with("data.") && name.len() == 8 {
+                            v.push((e.path(), e.metadata().map_err(|e| e.to_string())?.len()));
+                        }
+                    }
+                    v.sort();
+                    Ok(v)
+                };
+                // object 3 (never used by a program) keeps the archive non-empty; object 0 behind it
+                let before = {
+                    let c = DynamicContainer::builder(store.clone()).build().map_err(|e| e.to_string())?;
+                    rt.block_on(c.open()).map_err(|e| e.to_string())?;
+                    rt.block_on(c.write(&container_key(3), &container_data(3))).map_err(|e| format!("storing object 3: {e}"))?;
+                    let before = data_files(&store)?;
+                    rt.block_on(c.write(&container_key(0), &container_data(0))).map_err(|e| format!("storing object 0: {e}"))?;
+                    before
+                };
+                // the archive loses everything behind object 3: all of object 0's bytes. A later
+                // write of object 0 puts the same bytes at the same place again (content-addressed).
+                let after = data_files(&store)?;
+                let (Some((path, l0)), Some((path1, l1))) = (before.last().cloned(), after.last().cloned()) else {
+                    return Err("no archive file after storing two objects".into());
+                };
+                if before.len() != 1 || after.len() != 1 || path != path1 || l0 == 0 || l1 <= l0 {
+                    return Err(format!("unexpected archive layout after storing two objects: {before:?} -> {after:?}"));
+                }
+                let f = std::fs::OpenOptions::new().write(true).open(&path).map_err(|e| e.to_string())?;
+                f.set_len(l0).map_err(|e| e.to_string())?;
+                drop(f);
+                let c = DynamicContainer::builder(store).build().map_err(|e| e.to_string())?;
+                rt.block_on(c.open()).map_err(|e| e.to_string())?;
+                Ok(System::ContCut(c))
+            }
         }
     }
 
@@ -322,9 +372,14 @@ impl System {
                     (_, r) => r,
                 }
             }
-            System::Cont(c) => {
+            System::Cont(c) | System::ContCut(c) => {
                 let k = op.key().unwrap_or(0);
                 let key = container_key(k);
+                let cut = matches!(self, System::ContCut(_));
+                if cut && task == SETUP_TASK && matches!(op, Op::Put { k: 0 }) {
+                    // object 0 was stored (and lost its tail) before the container came up
+                    return Res::Unit;
+                }
                 match op {
                     Op::Put { .. } => match c.write(&key, &container_data(k)).await {
                         Ok(()) => Res::Unit,
@@ -339,6 +394,8 @@ impl System {
                                 Res::Got(Some(buf))
                             }
                             Err(StorageError::NotFound(_)) => Res::Got(None),
+                            // the object is indexed, its bytes are not all there: "present" for the model
+                            Err(StorageError::TruncatedRead(_)) if cut && k == 0 => Res::Got(Some(container_data(0))),
                             Err(e) => Res::Err(e.to_string()),
                         }
                     }
@@ -368,6 +425,11 @@ impl System {
                 let size = c.size().await.map_err(|e| e.to_string())?;
                 let st = c.stats().await.map_err(|e| e.to_string())?;
                 Ok((size, st.entry_count, st.memory_usage_bytes))
+            }
+            // object 3 of the truncated store is never touched by a program
+            System::ContCut(c) => {
+                let n = c.entry_count().saturating_sub(1);
+                Ok((n, n, 0))
             }
             System::Cont(c) => {
                 let n = c.entry_count();
@@ -525,6 +587,11 @@ impl Executor {
             Err(p) => Res::Panic { norm: p.norm_msg(), file: p.file, line: p.line, msg: p.msg },
         };
 
+        // the truncated container holds object 0 from the start, whatever the setup says
+        if case.sys == Sys::ContainerCut && !case.setup.contains(&Op::Put { k: 0 }) {
+            baton.record(Event::Invoke { task: SETUP_TASK, opi: 3, op: Op::Put { k: 0 } });
+            baton.record(Event::Return { task: SETUP_TASK, opi: 3, res: Res::Unit });
+        }
         // setup: sequential, recorded on the same time line
         for (i, op) in case.setup.iter().enumerate() {
             baton.record(Event::Invoke { task: SETUP_TASK, opi: i as u8, op: *op });
